@@ -976,7 +976,7 @@ fn short(t: &Target) -> &'static str {
     }
 }
 
-fn check_gen(c: &GenCase, rec: &mut Rec) -> CaseResult {
+pub fn check_gen(c: &GenCase, rec: &mut Rec) -> CaseResult {
     let bytes = gen_font(c);
     let src = match read_source("generated", bytes) {
         Ok(s) => s,
@@ -1109,4 +1109,172 @@ impl Property for C08 {
             |c, rec| check_fix(c, rec),
         );
     }
+}
+
+// ---------------------------------------------------------------------------------------------
+// libFuzzer decoder
+//
+// `case_from_bytes` maps fuzz bytes onto the `GenCase` domain of `gen_case()` (section `generated`):
+// the same ranges and collection sizes, selectors with roughly the strategy's weights; `domain_violation`
+// re-checks every decoded case. `Unstructured` yields the lower bound / zero once the input is exhausted
+// and collections stop at their minimum size then, so every input is a case. 32-bit words that the
+// model uses through `pick` (top bits) and `%` / `as u16` (low bits) are read from three bytes (top
+// byte + low 16 bits); `CRun::rnd`, the Big5 words and the list seed, of which other bit fields are
+// used too, are read in full. The Big5 items are only decoded for the two Big5 kinds (no other kind
+// reads them; the strategy allows an empty list) and those kinds get a single default run (they read
+// no runs). Layout: fixed-size header (kind, glyph count, OS/2, target, list style), list picks, runs,
+// encoder layout words, Big5 items; the 256-byte array of `PrinceMacRomanCmap` is the rest of the input.
+
+use arbitrary::Unstructured;
+
+type UResult<T> = arbitrary::Result<T>;
+
+/// any u32: top byte and low 16 bits from three bytes
+fn fz_w32(u: &mut Unstructured<'_>) -> UResult<u32> {
+    let a = u.arbitrary::<u8>()? as u32;
+    let b = u.arbitrary::<u8>()? as u32;
+    let c = u.arbitrary::<u8>()? as u32;
+    Ok((a << 24) | (b << 8) | c)
+}
+
+/// `crun()`
+fn fz_crun(u: &mut Unstructured<'_>) -> UResult<CRun> {
+    const STRIDE: [u8; 16] = [1, 1, 1, 1, 1, 2, 3, 4, 4, 5, 5, 6, 6, 9, 1, 4];
+    let h = u.arbitrary::<u8>()?;
+    let pool = h & 7;
+    let gpat = (h >> 3) % 5;
+    let s = u.arbitrary::<u8>()?;
+    let stride = STRIDE[(s & 15) as usize];
+    let len = match s >> 4 {
+        0..=7 => u.int_in_range(1u16..=7)?,
+        8..=12 => u.int_in_range(8u16..=59)?,
+        13 | 14 => u.int_in_range(60u16..=399)?,
+        _ => u.int_in_range(33_000u16..=39_999)?,
+    };
+    let g0: u16 = u.arbitrary()?;
+    let rnd: u32 = u.arbitrary()?;
+    Ok(CRun { pool, rnd, len, stride, gpat, g0 })
+}
+
+/// Some(reason) if `c` is not a value of `gen_case()`.
+fn domain_violation(c: &GenCase) -> Option<&'static str> {
+    if !((2..330).contains(&c.n_glyphs) || c.n_glyphs == 600) {
+        return Some("n_glyphs");
+    }
+    if !(1..7).contains(&c.runs.len()) {
+        return Some("run count");
+    }
+    for r in &c.runs {
+        if r.pool >= 8 || r.gpat >= 5 || ![1u8, 2, 3, 4, 5, 6, 9].contains(&r.stride) || !((1..400).contains(&r.len) || (33_000..40_000).contains(&r.len)) {
+            return Some("run");
+        }
+    }
+    if c.big5.len() >= 40 || c.layout.len() >= 40 {
+        return Some("big5 / layout length");
+    }
+    if !matches!(c.first_char, None | Some(0x20) | Some(0xF020) | Some(0xF000) | Some(0x21)) {
+        return Some("first_char");
+    }
+    if c.list.style > 5 || c.list.picks.len() >= 14 || c.list.order >= 3 {
+        return Some("list spec");
+    }
+    if let Target::PrinceMacRomanCmap(a) = &c.target {
+        if a.len() != 256 {
+            return Some("supplied Mac Roman array length");
+        }
+    }
+    None
+}
+
+/// bytes → a `GenCase` of `gen_case()` (section `generated`); total: every input is a case.
+pub fn case_from_bytes(data: &[u8]) -> arbitrary::Result<GenCase> {
+    const KIND: [SrcKind; 32] = [
+        SrcKind::WinBmp, SrcKind::WinBmp, SrcKind::WinBmp, SrcKind::WinBmp, SrcKind::WinBmp,
+        SrcKind::WinFull, SrcKind::WinFull, SrcKind::WinFull, SrcKind::WinFull,
+        SrcKind::Uni03F4, SrcKind::Uni03F4, SrcKind::Uni04F12, SrcKind::Uni04F12,
+        SrcKind::UniDense6, SrcKind::UniDense10,
+        SrcKind::MacCharsOnly, SrcKind::MacCharsOnly, SrcKind::MacCharsOnly, SrcKind::MacCharsOnly, SrcKind::MacCharsOnly,
+        SrcKind::Symbol, SrcKind::Symbol, SrcKind::Symbol, SrcKind::Symbol,
+        SrcKind::MacF0, SrcKind::MacF0, SrcKind::MacF6, SrcKind::MacF6,
+        SrcKind::Big5F4, SrcKind::Big5F2, SrcKind::Big5F4, SrcKind::Big5F2,
+    ];
+    const FIRST: [Option<u16>; 16] = [
+        None, None, Some(0x20), Some(0x20), Some(0x20), Some(0xF020), Some(0xF020), Some(0xF020), Some(0xF020), Some(0xF000), Some(0x21),
+        None, Some(0x20), Some(0xF020), Some(0xF020), Some(0xF000),
+    ];
+    const STYLE: [u8; 16] = [0, 0, 0, 1, 1, 1, 1, 2, 2, 3, 3, 4, 4, 5, 5, 1];
+    let mut u = Unstructured::new(data);
+    let u = &mut u;
+    let kind = KIND[(u.arbitrary::<u8>()? & 31) as usize];
+    let h = u.arbitrary::<u8>()?;
+    let first_char = FIRST[(h & 15) as usize];
+    let n_glyphs = match h >> 4 {
+        0..=7 => u.int_in_range(2u16..=39)?,
+        8 => u.int_in_range(40u16..=249)?,
+        9..=12 => u.int_in_range(250u16..=329)?,
+        13 => 600,
+        _ => u.int_in_range(256u16..=257)?,
+    };
+    let t = u.arbitrary::<u8>()?;
+    let target_sel = (t & 15) % 12;
+    let style = STYLE[(u.arbitrary::<u8>()? & 15) as usize];
+    let order = (t >> 4) % 3;
+    let k: u16 = u.arbitrary()?;
+    let seed: u32 = u.arbitrary()?;
+    let np = u.int_in_range(0usize..=13)?;
+    let mut picks = Vec::with_capacity(np);
+    for _ in 0..np {
+        if u.is_empty() {
+            break; // 0..=13 picks
+        }
+        picks.push(fz_w32(u)?);
+    }
+    let big5_kind = matches!(kind, SrcKind::Big5F4 | SrcKind::Big5F2);
+    let nr = if big5_kind { 1 } else { u.int_in_range(1usize..=6)? };
+    let mut runs = Vec::with_capacity(nr);
+    for i in 0..nr {
+        if i >= 1 && u.is_empty() {
+            break; // 1..=6 runs
+        }
+        runs.push(fz_crun(u)?);
+    }
+    let nl = u.int_in_range(0usize..=39)?;
+    let mut layout = Vec::with_capacity(nl);
+    for _ in 0..nl {
+        if u.is_empty() {
+            break; // 0..=39 layout words (the encoders read 0 when dry)
+        }
+        layout.push(fz_w32(u)?);
+    }
+    let mut big5 = Vec::new();
+    if big5_kind {
+        let nb = u.int_in_range(0usize..=39)?;
+        for _ in 0..nb {
+            if u.is_empty() {
+                break; // 0..=39 items
+            }
+            let sel: u8 = u.arbitrary()?;
+            let gid: u16 = u.arbitrary()?;
+            let rnd: u32 = u.arbitrary()?;
+            big5.push((sel, rnd, gid));
+        }
+    }
+    let target = match target_sel {
+        0..=3 => Target::Plain,
+        4 | 5 => Target::PrinceUnrestricted,
+        6..=9 => Target::PrinceMacRoman,
+        10 => Target::PrinceOmit,
+        _ => {
+            let mut a = vec![0u8; 256];
+            let n = u.len().min(256);
+            let rest = u.bytes(n)?;
+            a[..n].copy_from_slice(rest);
+            Target::PrinceMacRomanCmap(a)
+        }
+    };
+    let case = GenCase { n_glyphs, kind, runs, big5, layout, first_char, list: ListSpec { style, k, picks, order, seed }, target };
+    if let Some(what) = domain_violation(&case) {
+        panic!("C08 case_from_bytes left the domain of gen_case: {}", what);
+    }
+    Ok(case)
 }
